@@ -25,6 +25,7 @@ LEVEL_TEXT = (
     "schedules; plus a real-lock handshake test without the scheduler. Interleavings inside nutree between two yield "
     "points are not explored (byte-code level pre-emption is out of reach for this technique)."
 )
+TECHNIQUE = 'systematic schedule exploration with a harness-owned deterministic scheduler (real threads) + Hypothesis programs/schedules; real-lock handshake'
 RULE = (
     "case = (1-2 writer threads, each a list of critical sections `with tree:` of 2-3 mutation steps whose "
     "intermediate states are distinguishable from every committed state (paired nodes, clear+rebuild, add+move), "
